@@ -1268,6 +1268,30 @@ func (e *nenum) renderD(fr *nframe, x ast.Expr, depth int) string {
 		if v.Ellipsis.IsValid() {
 			ell = "..."
 		}
+		// a plain helper function that only gives a library expression a name (`func keys(m) []string { return
+		// slices.Sorted(maps.Keys(m)) }`) reads as that expression
+		if id, ok := v.Fun.(*ast.Ident); ok && depth < 4 && fr.closureNamed(lname(id)) == nil {
+			if d := e.c.funcs[id.Name]; d != nil && d.Recv == nil && d.Body != nil && len(d.Body.List) == 1 && !e.c.noInline[id.Name] && !e.inlining[d] {
+				if rs, ok := d.Body.List[0].(*ast.ReturnStmt); ok && len(rs.Results) == 1 && namesLibraryExpr(e.c, rs.Results[0]) {
+					var params []string
+					if d.Type.Params != nil {
+						for _, f := range d.Type.Params.List {
+							for _, nm := range f.Names {
+								params = append(params, lname(nm))
+							}
+						}
+					}
+					if len(params) == len(as) && !v.Ellipsis.IsValid() {
+						sub := map[string]string{}
+						for i, pn := range params {
+							sub[pn] = as[i]
+						}
+						nf := &nframe{fd: d, subst: sub, defs: map[string]ast.Expr{}, multi: map[string]string{}, closures: map[string]*nclosure{}, ptrAlias: map[string]ast.Expr{}, parent: fr, level: fr.level + 1}
+						return e.renderD(nf, rs.Results[0], depth+1)
+					}
+				}
+			}
+		}
 		// the number of runes of a string, in either spelling
 		if id, ok := v.Fun.(*ast.Ident); ok && id.Name == "len" && len(as) == 1 && strings.HasPrefix(as[0], "[]rune(") && wholeCall(as[0]) {
 			return "utf8.RuneCountInString(" + as[0][len("[]rune("):len(as[0])-1] + ")"
@@ -2872,4 +2896,39 @@ func (e *nenum) callSitesOf(d *ast.FuncDecl) int {
 		}
 	}
 	return e.c.callSites[d.Name.Name]
+}
+
+// namesLibraryExpr: the expression is built from calls of library functions (pkg.Func) and builtins, selections,
+// indexing and the function's own parameters only - no call of a function or method of the analysed package.
+func namesLibraryExpr(c *nctx, x ast.Expr) bool {
+	ok, hasLib := true, false
+	ast.Inspect(x, func(n ast.Node) bool {
+		switch v := n.(type) {
+		case *ast.FuncLit:
+			ok = false
+		case *ast.CallExpr:
+			switch f := v.Fun.(type) {
+			case *ast.Ident:
+				if c.funcs[f.Name] != nil {
+					ok = false
+				}
+			case *ast.SelectorExpr:
+				id, isID := f.X.(*ast.Ident)
+				if !isID {
+					ok = false
+					break
+				}
+				switch id.Name {
+				case "slices", "maps", "strings", "sort", "bytes", "strconv", "unicode", "utf8":
+					hasLib = true
+				default:
+					ok = false
+				}
+			default:
+				ok = false
+			}
+		}
+		return ok
+	})
+	return ok && hasLib
 }
